@@ -8,6 +8,7 @@
     Statements only; proofs live in Proofs/HistoryProofs.v.
     (Snapshot / aliasing semantics of the Python arrays and the text of [report] are observed by the
     test harness; they cannot be stated in a value model.) *)
+From Robo Require Import ReportProofs.
 From Robo Require Import Prelude Str Wells Utils Labware Tips Records Partition Params Worklist
   EvoCmd Program HistoryProofs.
 
@@ -378,3 +379,28 @@ Example C11_example_run :
 Proof.
   cbv zeta. split; [repeat constructor|]. vm_compute. repeat split.
 Qed.
+
+(** The printable report: one block per history entry, in history order; the label line is present exactly for
+    non-empty labels; the numbers are the snapshot rounded to one decimal.  (The text layout of numpy's array
+    printing is observed by the harness, which parses the blocks back and compares them with [report_entries].) *)
+Theorem C11_report_length : forall L, length (report_entries L) = length (lw_hist L).
+Proof. exact report_entries_length. Qed.
+Print Assumptions C11_report_length.
+
+Theorem C11_report_entry : forall L i d, i < length (lw_hist L) ->
+  nth i (report_entries L) d =
+    (match fst (nth i (lw_hist L) (None, [])) with
+     | Some l => if String.eqb l "" then None else Some l
+     | None => None
+     end,
+     map round1c (snd (nth i (lw_hist L) (None, [])))).
+Proof. exact report_entries_nth. Qed.
+Print Assumptions C11_report_entry.
+
+(** logging an entry appends exactly one block to the report and leaves the earlier blocks alone *)
+Theorem C11_report_append : forall L h,
+  report_entries (set_hist L (lw_hist L ++ [h])) =
+  report_entries L ++ [(match fst h with Some l => if String.eqb l "" then None else Some l | None => None end,
+                        map round1c (snd h))].
+Proof. exact report_entries_app. Qed.
+Print Assumptions C11_report_append.
